@@ -75,6 +75,13 @@ def run_witness(w):
         out = [l for l in r.stdout.split('\n') if l]
         bad = any(l.strip() == 'linearizable false' for l in out) or any('BLOCKED' in l for l in out)
         return {'output': out, 'violates': bad, 'required': w.get('required', 'the concurrent outcome equals one of the two sequential orders (the real code is its own oracle)')}
+    if kind == 'steps':
+        out = _steps(w['lines'])
+        bad = 'completes true' not in out
+        if bad:   # timing guard: only a scenario that fails twice counts
+            out2 = _steps(w['lines'])
+            bad = 'completes true' not in out2
+        return {'output': out, 'violates': bad, 'required': w.get('required')}
     if kind == 'sock':
         import subprocess
         r = subprocess.run([replaytool.REPLAY_BIN, 'sock'], input='\n'.join(w['lines']) + '\n', capture_output=True, text=True, timeout=120)
@@ -330,9 +337,79 @@ def gen_conc_store(pid, f):
     return None
 
 
+# ------------------------------------------------------------------------------------------------
+# C16 at the granularity of the store's internal steps: thread 1 is parked before each call it makes through a
+# pass-through Cache layer (above the policy, between the policy and the memory store) or to the clock, while
+# thread 2 runs whole commands; every command must return.  BOUNDED: the grid below.
+def _steps(lines):
+    import subprocess
+    try:
+        r = subprocess.run([replaytool.STEPS_BIN], input='\n'.join(lines) + '\n', capture_output=True, text=True, timeout=60)
+        return [l for l in r.stdout.split('\n') if l]
+    except subprocess.TimeoutExpired:
+        return ['driver timed out']
+
+def steps_grid():
+    big = 'v' * 400
+    G = []
+    for pol in (None, 300):
+        inits = {'absent': [], 'present': ['init set k 5 0 0'], 'present-expired': ['init set k 5 0 5', 'tick 10']}
+        if pol:
+            inits['over-limit'] = ['init set big %s 0 0' % big, 'init set k 5 0 0']
+            inits['same-key-stored-repeatedly'] = ['init set k %s 0 0' % ('v' * 120)] * 3
+        t1s = ['get k', 'set k one 0 0', 'set k one 1 0', 'set k %s 0 0' % ('w' * 200), 'delete k 0', 'delete k 1', 'add k 7', 'replace k 7', 'append k 7', 'prepend k 7',
+               'incr k 1', 'decr k 1', 'incr other 1', 'flush 0', 'flush 5']
+        t2s = ['set k two 0 0', 'set j %s 0 0' % ('u' * 250), 'delete k 0', 'flush 0', 'incr k 1', 'get k']
+        for iname, init in inits.items():
+            for a in t1s:
+                G.append((pol, iname, init, a, t2s))
+    return G
+
+def gen_steps(pid, f, quick=True):
+    ok, err = replaytool.build_steps_bin()
+    if not ok:
+        return None
+    from concurrent.futures import ThreadPoolExecutor
+    jobs = []
+    def prelude(pol, init): return (['policy random %d' % pol] if pol else ['policy none']) + init
+    def dry(job):
+        pol, iname, init, a, t2s = job
+        lines = prelude(pol, init) + ['t1 ' + a, 'park 0']
+        return job, lines, _steps(lines)
+    with ThreadPoolExecutor(8) as ex:
+        dries = list(ex.map(dry, steps_grid()))
+    runs = []
+    for (job, lines, out) in dries:
+        pol, iname, init, a, t2s = job
+        if 'completes true' not in out:
+            w = {'kind': 'steps', 'lines': lines, 'required': 'the command returns', 'what': 'policy %s, initial state %s: `%s` run on its own does not return' % (pol, iname, a)}
+            if run_witness(w)['violates']: return w
+            continue
+        n = 0
+        for l in out:
+            if l.startswith('steps '): n = int(l.split()[1])
+        for park in range(1, n + 1):
+            for b in t2s:
+                runs.append((pol, iname, a, park, b, prelude(pol, init) + ['t1 ' + a, 'park %d' % park, 't2 ' + b, 'final get k']))
+    def conc(r):
+        return r, _steps(r[5])
+    with ThreadPoolExecutor(8) as ex:
+        for (r, out) in ex.map(conc, runs):
+            if 'completes true' not in out:
+                pol, iname, a, park, b, lines = r
+                w = {'kind': 'steps', 'lines': lines, 'required': 'every command returns (thread 2 while thread 1 is parked or after its release; thread 1 after its release)',
+                     'what': 'policy %s, initial state %s: thread 1 `%s` parked before its step #%d while thread 2 runs `%s`: a command does not return' % (pol, iname, a, park, b)}
+                if run_witness(w)['violates']: return w
+    gen_steps.last_count = len(dries) + len(runs)
+    return None
+gen_steps.last_count = 0
+
 # Bounded stand-ins registered per property in specs/properties.json (`bounded_twins`): for functions that no contract
 # within reach covers.  Labelled bounded in the evidence; never counted as proved.
 BOUNDED_TWINS = {
+    'steps': {'gen': gen_steps, 'fn': 'interleavings of MemcStore / RandomPolicy / MemoryStore calls (no contract expresses lock order across threads)',
+              'bound': 'two threads; thread 1 parked before each of its calls through the Cache trait layers or to the clock; 15 commands x 3-5 initial states x 2 policies for thread 1, 6 commands for thread 2 (tools/witness.py:steps_grid)',
+              'what': 'every command returns under every step-level two-thread schedule of the grid'},
     'hang': {'gen': gen_hang, 'fn': 'memcache::random_policy::RandomPolicy::incr_mem_usage',
              'bound': '6 sessions (stores under a 300-byte memory limit with values below, at and above the limit; CAS stores; expiry + flush), watchdog 10 s each',
              'what': 'every command of the scenario sessions returns (the eviction loop of incr_mem_usage terminates)'},
